@@ -6,15 +6,18 @@
 1. in a scratch worktree of /repo (under /tmp, removed afterwards): the demonstration passes on
    the clean tree; with the patch applied the crate compiles, the complete existing suite passes,
    and the demonstration fails;
-2. applies the patch to /repo itself, runs `./check <prop>` for each listed property (quick tier),
-   records which of them report a VIOLATION, and undoes the patch (git checkout -- .);
+2. runs `./check <prop>` (quick tier) for each listed property against a second scratch worktree with
+   the patch applied (tools/altrun.py: a scratch copy of /verif with VERIF_REPO pointing at it, so /repo,
+   the evidence and the replays stay as they are and several changes can be run in parallel), and
+   records which of them report a VIOLATION;
 3. writes seeded/<id>/{patch.diff, demo.rs, notes.md, meta.json}.
 Never commits anything to /repo."""
 import json, os, shutil, subprocess, sys, time
+sys.path.insert(0, os.path.dirname(os.path.abspath(__file__)))
 
 ROOT = os.path.abspath(os.path.join(os.path.dirname(os.path.abspath(__file__)), ".."))
 REPO = "/repo"
-TARGET = "/tmp/confirm_target"
+TARGET = os.environ.get("VERIF_CONFIRM_TARGET", "/root/scratch/confirm_target")
 
 
 def sh(cmd, cwd=None, timeout=1800, env=None):
@@ -33,7 +36,7 @@ def sh(cmd, cwd=None, timeout=1800, env=None):
 def main():
     mid, patch, demo, notes = sys.argv[1:5]
     props = sys.argv[5:]
-    wt = "/tmp/confirm_%s" % mid
+    wt = "/root/scratch/confirm_%s" % mid
     meta = {"id": mid, "properties": props, "ran": [], "when": time.strftime("%Y-%m-%d %H:%M:%S")}
     sh("git -C %s worktree remove --force %s" % (REPO, wt))
     rc, out = sh("git -C %s worktree add -q --detach %s HEAD" % (REPO, wt))
@@ -69,23 +72,17 @@ def main():
     print(json.dumps({k: v for k, v in meta.items() if k != "ran"}, indent=1))
     if not confirmed:
         return 1
-    # run the checks against it
-    rc, out = sh("git -C %s status --short" % REPO)
-    if out.strip():
-        print("/repo is not clean, refusing to apply:\n" + out)
-        return 2
-    rc, out = sh("git -C %s apply %s" % (REPO, os.path.abspath(patch)))
+    # run the checks against it: a patched scratch worktree and a scratch copy of /verif (tools/altrun.py);
+    # /repo itself, the evidence and the replays of /verif are not touched
+    import altrun
     results = {}
-    try:
+    with altrun.Alt(mid, patch) as alt:
         for p in props:
-            rc, out = sh("./check %s --tier quick" % p, cwd=ROOT, timeout=3000, env={"CARGO_TARGET_DIR": ""})
-            viol = [l for l in out.split("\n") if l.startswith("VIOLATION")]
-            results[p] = {"exit": rc, "violations": len(viol), "first": viol[:2],
-                          "summary": [l for l in out.split("\n") if l.startswith(p + " quick")][:1]}
-            print(p, "exit", rc, "violations", len(viol), viol[:1])
-    finally:
-        sh("git -C %s checkout -- ." % REPO)
-        sh("python3 %s" % os.path.join(ROOT, "tools", "gen_tables.py"))
+            r, out = alt.check(p)
+            results[p] = r
+            print(p, "exit", r["exit"], "violations", r["violations"], r["first"][:1])
+            if r["exit"] != 0 and r["first"]:
+                r["replay_excerpt"] = alt.replay_text(r["first"][0])[-800:]
     # restore evidence of the unchanged tree for the checks we disturbed
     meta["checks"] = results
     meta["detected_by"] = [p for p, r in results.items() if r["exit"] != 0]
